@@ -33,7 +33,7 @@ func TestC11(t *testing.T) {
 		"Oracle on the byte stream (a writer may put several whole messages into one Write): the concatenated writes re-frame by header length without remainder; the frames equal the submitted encodings as multisets (none missing after a 30 s wait, none twice, nothing else); per producer the sequence numbers appear in ascending order. " +
 		"Non-trivial: >= 2 producers and >= 2 different sizes; distinct by hash of the script.")
 	c.Assume("a write error is outside the property (the stream calls log.Fatalf on it); schedules are sampled, not enumerated")
-	rapid.Check(t, func(rt *rapid.T) {
+	checkRapid(t, c, func(rt *rapid.T) {
 		np := []int{1, 2, 3, 4, 8, 16}[gen.Pick(rt, "producers", 6)]
 		per := 1
 		switch gen.Pick(rt, "per_class", 4) {
